@@ -109,8 +109,8 @@ def case_for(cid, decls, bpj, ideal=None, entities=None, c20=False, mems=None, h
         + f"Definition rs_{cid} : list ent_req := [{'; '.join(rs)}].\n"
     )
     expr = f"ok (check_prog bp_{cid} {n + 2}%nat ds_{cid} qs_{cid} rs_{cid})"
+    defs += f"Definition bqs_{cid} : list bout_req := [{'; '.join(bqs)}].\n"
     if bqs:
-        defs += f"Definition bqs_{cid} : list bout_req := [{'; '.join(bqs)}].\n"
         expr = f"ok (check_progb bp_{cid} {n + 2}%nat ds_{cid} qs_{cid} rs_{cid} bqs_{cid})"
 
     if c20:
@@ -246,7 +246,7 @@ def case_for(cid, decls, bpj, ideal=None, entities=None, c20=False, mems=None, h
 
 
 def debug_case(cid, defs, n):
-    rc, outs, text = H.coq_eval(defs, [f"debug_prog bp_{cid} {n + 2}%nat ds_{cid} qs_{cid} rs_{cid}"], EXTRA, tag=f"dbg{cid}")
+    rc, outs, text = H.coq_eval(defs, [f"debug_progb bp_{cid} {n + 2}%nat ds_{cid} qs_{cid} rs_{cid} bqs_{cid}"], EXTRA, tag=f"dbg{cid}")
     return outs[0] if outs and outs[0] else text[-3000:]
 
 
@@ -270,7 +270,7 @@ def search_failing_input(cid, defs, n, n_inputs, rng, extra_values=()):
     lst = "[" + "; ".join("[" + "; ".join(fa.zc(v) for v in e) + "]" for e in envs) + "]"
     expr = (
         f"map (fun e => forallb (fun p => Z.eqb (fst p) (snd p)) "
-        f"(conc_prog bp_{cid} {n + 3}%nat ds_{cid} qs_{cid} rs_{cid} (env_of e))) {lst}"
+        f"(conc_progb bp_{cid} {n + 3}%nat ds_{cid} qs_{cid} rs_{cid} bqs_{cid} (env_of e))) {lst}"
     )
     rc, outs, text = H.coq_eval(defs, [expr], EXTRA, tag=f"srch{cid}")
     if not outs or outs[0] is None:
@@ -279,7 +279,7 @@ def search_failing_input(cid, defs, n, n_inputs, rng, extra_values=()):
     for e, f in zip(envs, flags):
         if f == "false":
             el = "[" + "; ".join(fa.zc(v) for v in e) + "]"
-            rc, o2, _ = H.coq_eval(defs, [f"conc_prog bp_{cid} {n + 3}%nat ds_{cid} qs_{cid} rs_{cid} (env_of {el})"], EXTRA,
+            rc, o2, _ = H.coq_eval(defs, [f"conc_progb bp_{cid} {n + 3}%nat ds_{cid} qs_{cid} rs_{cid} bqs_{cid} (env_of {el})"], EXTRA,
                                    tag=f"srch2{cid}")
             pairs = re.findall(r"\((-?\d+),\s*(-?\d+)\)", (o2[0] or "").replace("%Z", ""))
             return e, [(int(a), int(b)) for a, b in pairs]
